@@ -801,6 +801,8 @@ Proof.
   - destruct (fire_top (m_budget (d_m d)) (m_budget (d_m d)) d e I S) as [A B]. rewrite A. auto.
   - split; [apply fresh_inv|]. split; auto. unfold exit_inert, cbcfg in *. simpl in *. rewrite forallb_app. rewrite I. simpl.
     rewrite O. reflexivity.
+  - split; [apply fresh_inv|]. split; auto. unfold exit_inert, cbcfg in *. simpl in *. rewrite forallb_app. rewrite I. simpl.
+    exact O.
   - split; [apply fresh_inv|]. auto.
   - split; [apply fresh_inv|]. auto.
 Qed.
@@ -1065,4 +1067,15 @@ Proof.
   unfold render_full. rewrite E.
   exists l1, (l2 ++ edges (m_opts m) (elements m) ++ [Init (m_initial m)]).
   rewrite <- app_assoc. simpl. rewrite <- app_assoc. reflexivity.
+Qed.
+
+Lemma add_states_appear : forall d l s,
+  wf_kind (m_opts (d_m d)) (m_states (d_m d) ++ l) = true -> In s l ->
+  In (Decl [s_id s] (disp (m_opts (d_m d)) s)) (view (step d (AddStates l))).
+Proof.
+  intros d l s W Hs. simpl. unfold view. cbn [d_m d_sty]. unfold render_full. apply in_or_app. left.
+  cbn [apply_op with_states m_states m_opts].
+  apply (decl_in_nodes (m_opts (d_m d)) _ (m_states (d_m d) ++ l) ([], s) W).
+  unfold all_subtrees. rewrite flat_map_app. apply in_or_app. right.
+  apply in_flat_map. exists s. split; auto. destruct s. simpl. left. reflexivity.
 Qed.
